@@ -185,6 +185,35 @@ def load_known(pid):
     return [e for e in data.get("findings", []) if e.get("property") == pid and e.get("status") == "open"]
 
 
+def replay_only(pid, path):
+    """./check <ID> --replay <model>: run the counterexample natively against /repo's current tree (dev and release)"""
+    base = os.path.basename(path)
+    parts = base.split("-")
+    harness = parts[1] if len(parts) > 2 else None
+    names = [h["name"] for h in PROPS[pid]["harnesses"]]
+    if harness not in names:
+        print("cannot tell the harness from the file name %s (expected <ID>-<harness>-...)" % base)
+        return 2
+    os.makedirs(WORK, exist_ok=True)
+    lock = open(os.path.join(WORK, "lock"), "w")
+    fcntl.flock(lock, fcntl.LOCK_EX)
+    try:
+        bins = {"dev": build_replay("dev"), "release": build_replay("release")}
+        bad = False
+        for prof, b in bins.items():
+            d = native_replay(b, harness, [os.path.abspath(path)], timeout=120).get(os.path.abspath(path), {})
+            print("REPLAY profile=%s harness=%s failed=%s panic=%s" % (prof, harness, d.get("failed"), d.get("panic")))
+            if d.get("failed", "none") not in ("none", "", "ASSUME") or d.get("panic", "none") != "none":
+                bad = True
+    finally:
+        fcntl.flock(lock, fcntl.LOCK_UN)
+    if bad:
+        print("VIOLATION property=%s replay=%s" % (pid, path))
+        return 1
+    print("%s: the model does not fail on this tree" % pid)
+    return 0
+
+
 def main():
     args = sys.argv[1:]
     if not args:
@@ -199,6 +228,8 @@ def main():
         print("unknown property", pid)
         return 2
     prop = PROPS[pid]
+    if "--replay" in args:
+        return replay_only(pid, args[args.index("--replay") + 1])
     t0 = time.time()
     os.makedirs(WORK, exist_ok=True)
     lock = open(os.path.join(WORK, "lock"), "w")
